@@ -156,13 +156,26 @@ theorem lowerAscii_alnum (c : Char) : isAsciiAlnum (lowerAscii c) = isAsciiAlnum
   · unfold lowerAscii
     simp [h]
 
+theorem lowerAscii_nameChar (c : Char) : isNameChar (lowerAscii c) = isNameChar c := by
+  unfold isNameChar
+  rw [lowerAscii_alnum]
+  by_cases h : 'A' ≤ c ∧ c ≤ 'Z'
+  · have hc : isAsciiAlnum c = true := by
+      unfold isAsciiAlnum isAsciiAlpha
+      have h1 := h.1
+      have h2 := h.2
+      simp [h1, h2]
+    simp [hc]
+  · unfold lowerAscii
+    simp [h]
+
 theorem splitBy_go_lower (s acc : Str) :
-    splitBy.go (fun c => !isAsciiAlnum c) (lowerStr s) (lowerStr acc) =
-      (splitBy.go (fun c => !isAsciiAlnum c) s acc).map lowerStr := by
+    splitBy.go (fun c => !isNameChar c) (lowerStr s) (lowerStr acc) =
+      (splitBy.go (fun c => !isNameChar c) s acc).map lowerStr := by
   induction s generalizing acc with
   | nil => simp [splitBy.go, lowerStr, List.map_reverse]
   | cons c r ih =>
-    simp only [lowerStr, List.map_cons, splitBy.go, lowerAscii_alnum]
+    simp only [lowerStr, List.map_cons, splitBy.go, lowerAscii_nameChar]
     split
     · simp only [List.map_cons]
       have := ih []
